@@ -296,14 +296,16 @@ theorem ss_downExp (s : SS) (idx sub : Nat) (data : Bytes) (hidx : idx < 65536) 
     List.headD_cons, f1, if_true, onDownInit, m1, m2, m3, f2, f3, f4, f5, flagIf_false, h44, padTo_take',
     padTo_drop_zero, Bool.not_true, Bool.false_and, Bool.and_false]
 
-/-- the single raw write that carries an expedited download -/
-theorem wsWrite_exp (c : Chan PS) (w : WS) (idx sub : Nat) (payload : Bytes)
+/-- the raw write that completes an expedited download: what was collected before plus this offer
+    make up the payload, which goes out in the single expedited request -/
+theorem wsWrite_exp (c : Chan PS) (w : WS) (idx sub : Nat) (payload b : Bytes)
     (hidx : idx < 65536) (hsub : sub < 256)
     (h1 : 1 ≤ payload.length) (h4 : payload.length ≤ 4) (hnd : w.done = false)
     (hsz : w.size = some payload.length)
     (hexp : w.expHeader = some ((REQUEST_DOWNLOAD ||| EXPEDITED ||| SIZE_SPECIFIED |||
-      ((4 - payload.length) <<< 2)) :: muxB idx sub)) :
-    wsWrite specPeer c w payload =
+      ((4 - payload.length) <<< 2)) :: muxB idx sub))
+    (hcat : w.pending ++ b = payload) :
+    wsWrite specPeer c w b =
       ({ peer := ({ c.peer.1 with phase := .idle, mux := (idx, sub),
                                   held := ((idx, sub), payload) :: c.peer.1.held,
                                   commits := c.peer.1.commits ++ [((idx, sub), payload)] },
@@ -311,68 +313,83 @@ theorem wsWrite_exp (c : Chan PS) (w : WS) (idx sub : Nat) (payload : Bytes)
          queue := [],
          sent := c.sent ++ [((REQUEST_DOWNLOAD ||| EXPEDITED ||| SIZE_SPECIFIED |||
            ((4 - payload.length) <<< 2)) :: muxB idx sub) ++ padTo 4 payload] },
-       .ok ({ w with done := true, pos := w.pos + payload.length }, payload.length)) := by
+       .ok ({ w with done := true, pos := w.pos + b.length, pending := [] }, b.length)) := by
   have hstep := ss_downExp c.peer.1 idx sub payload hidx hsub h1 h4
   have hrr := rr_one c _ _ _ 0x60 _ hstep rfl resp_fields.1.1
-  have hn1 : ¬ payload.length < payload.length := by omega
-  have hn2 : ¬ payload.length > 4 := by omega
-  simp only [wsWrite, hnd, Bool.false_eq_true, if_false, hexp, hsz, Option.getD_some, hn1, hn2]
+  have hlen : w.pending.length + b.length = payload.length := by rw [← hcat]; simp
+  have hn1 : ¬ b.length < payload.length - w.pending.length := by omega
+  have htake : expTake w b = b := by
+    unfold expTake
+    split
+    · rfl
+    · rw [hsz]; simp only [Option.getD_some]; exact List.take_of_length_le (by omega)
+  have hn2 : (w.pending.isEmpty && decide (b.length > 4)) = false := by
+    cases hp : w.pending with
+    | nil => rw [hp] at hlen; simp at hlen ⊢; omega
+    | cons x xs => simp
+  simp only [wsWrite, hnd, Bool.false_eq_true, if_false, hexp, hsz, Option.getD_some, hn1, hn2, htake, hcat]
   rw [hrr]
   simp [resp_fields.1.2.2]
 
-/-- feeding an expedited download: offers shorter than the declared size are refused with 0 (the
-    caller retries with its next offer), the first offer that covers the payload sends it -/
+/-- feeding an expedited download: offers that do not complete the declared size are collected by
+    the stream (the caller advances), the offer that completes it sends the whole payload at once -/
 theorem wsFeed_exp (idx sub : Nat) (payload : Bytes) (hidx : idx < 65536) (hsub : sub < 256)
     (h1 : 1 ≤ payload.length) (h4 : payload.length ≤ 4) :
-    ∀ (offers : List Nat) (fuel : Nat) (c : Chan PS) (w : WS),
+    ∀ (fuel : Nat) (c : Chan PS) (w : WS) (rem : Bytes) (offers : List Nat),
       w.done = false → w.size = some payload.length →
       w.expHeader = some ((REQUEST_DOWNLOAD ||| EXPEDITED ||| SIZE_SPECIFIED |||
         ((4 - payload.length) <<< 2)) :: muxB idx sub) →
-      offers.length + 2 ≤ fuel →
-      ∃ c' w', wsFeed specPeer fuel c w payload offers = (c', .ok w') ∧ w'.done = true ∧
+      w.pending ++ rem = payload → rem ≠ [] → rem.length < fuel →
+      ∃ c' w', wsFeed specPeer fuel c w rem offers = (c', .ok w') ∧ w'.done = true ∧
         w'.expHeader = w.expHeader ∧
         c'.peer.1 = { c.peer.1 with phase := .idle, mux := (idx, sub),
                                     held := ((idx, sub), payload) :: c.peer.1.held,
                                     commits := c.peer.1.commits ++ [((idx, sub), payload)] } := by
-  intro offers
-  induction offers with
-  | nil =>
-    intro fuel c w hnd hsz hexp hf
-    obtain ⟨f, rfl⟩ : ∃ f, fuel = f + 2 := ⟨fuel - 2, by omega⟩
-    have hne : payload.isEmpty = false := by
-      cases payload with
-      | nil => simp at h1
+  intro fuel
+  induction fuel with
+  | zero => intro c w rem offers _ _ _ _ _ hf; omega
+  | succ fuel ih =>
+    intro c w rem offers hnd hsz hexp hcat hne hf
+    have hre : rem.isEmpty = false := by
+      cases rem with
+      | nil => exact absurd rfl hne
       | cons x xs => rfl
     unfold wsFeed
-    simp only [hne, Bool.false_eq_true, if_false, nextOffer, List.take_length]
-    rw [wsWrite_exp c w idx sub payload hidx hsub h1 h4 hnd hsz hexp]
-    simp only [List.drop_length]
-    unfold wsFeed
-    simp only [List.isEmpty_nil, if_true]
-    exact ⟨_, _, rfl, rfl, rfl, rfl⟩
-  | cons k ks ih =>
-    intro fuel c w hnd hsz hexp hf
-    obtain ⟨f, rfl⟩ : ∃ f, fuel = f + 2 := ⟨fuel - 2, by omega⟩
-    have hne : payload.isEmpty = false := by
-      cases payload with
-      | nil => simp at h1
-      | cons x xs => rfl
-    unfold wsFeed
-    simp only [hne, Bool.false_eq_true, if_false, nextOffer]
-    by_cases hk : max k 1 < payload.length
-    · -- offer too short: write returns 0, nothing sent
-      have hlt : (payload.take (max k 1)).length < payload.length := by
-        simp only [List.length_take]; omega
-      have hw : wsWrite specPeer c w (payload.take (max k 1)) = (c, .ok (w, 0)) := by
+    simp only [hre, Bool.false_eq_true, if_false]
+    generalize hk : nextOffer offers rem.length = k
+    have hk1 : 1 ≤ k := by
+      have hrl : 1 ≤ rem.length := by
+        cases rem with
+        | nil => exact absurd rfl hne
+        | cons x xs => simp
+      cases offers with
+      | nil => simp [nextOffer] at hk; omega
+      | cons a as => simp [nextOffer] at hk; omega
+    have hplen : w.pending.length + rem.length = payload.length := by rw [← hcat]; simp
+    by_cases hshort : k < rem.length
+    · -- the offer does not complete the payload: collected, nothing sent
+      have hbl : (rem.take k).length = k := by simp only [List.length_take]; omega
+      have hlt : (rem.take k).length < payload.length - w.pending.length := by rw [hbl]; omega
+      have hw : wsWrite specPeer c w (rem.take k) =
+          (c, .ok ({ w with pending := w.pending ++ rem.take k, pos := w.pos + (rem.take k).length },
+                   (rem.take k).length)) := by
         simp only [wsWrite, hnd, Bool.false_eq_true, if_false, hexp, hsz, Option.getD_some, hlt, if_true]
       rw [hw]
-      simp only [List.drop_zero, List.tail_cons]
-      exact ih (f + 1) c w hnd hsz hexp (by simp only [List.length_cons] at hf; omega)
-    · have htk : payload.take (max k 1) = payload := List.take_of_length_le (by omega)
-      rw [htk, wsWrite_exp c w idx sub payload hidx hsub h1 h4 hnd hsz hexp]
+      simp only [hbl]
+      have hdne : rem.drop k ≠ [] := by
+        intro h
+        have := congrArg List.length h
+        simp only [List.length_drop, List.length_nil] at this
+        omega
+      exact ih c { w with pending := w.pending ++ rem.take k, pos := w.pos + k } (rem.drop k) offers.tail
+        hnd hsz hexp (by simp only [List.append_assoc, List.take_append_drop]; exact hcat) hdne
+        (by simp only [List.length_drop]; omega)
+    · have htk : rem.take k = rem := List.take_of_length_le (by omega)
+      rw [htk, wsWrite_exp c w idx sub payload rem hidx hsub h1 h4 hnd hsz hexp hcat]
       simp only [List.drop_length]
-      unfold wsFeed
-      simp only [List.isEmpty_nil, if_true]
+      have hfin : ∀ (f : Nat) (c : Chan PS) (w : WS) (o : List Nat), wsFeed specPeer f c w [] o = (c, .ok w) := by
+        intro f c w o; cases f <;> simp [wsFeed]
+      rw [hfin]
       exact ⟨_, _, rfl, rfl, rfl, rfl⟩
 
 /-- **A completed download delivers exactly the payload, in legal frames.**
@@ -433,12 +450,14 @@ theorem download_delivers (c : Chan PS) (idx sub : Nat) (payload : Bytes) (sized
     obtain ⟨hs, h1, h4⟩ := hsz
     subst hs
     simp only [wsInit, hnseg, Bool.false_eq_true, if_false, Option.getD_some]
+    have hpne : payload ≠ [] := by
+      intro h; rw [h] at h1; simp at h1
     obtain ⟨c2, w2, hfeed, hd, he, hc2⟩ :=
-      wsFeed_exp idx sub payload hidx hsub h1 h4 offers (2 * payload.length + offers.length + 2) c
+      wsFeed_exp idx sub payload hidx hsub h1 h4 (2 * payload.length + offers.length + 2) c
         { size := some payload.length, pos := 0, toggle := 0,
           expHeader := some ((REQUEST_DOWNLOAD ||| EXPEDITED ||| SIZE_SPECIFIED |||
             ((4 - payload.length) <<< 2)) :: muxB idx sub), done := false }
-        rfl rfl rfl (by omega)
+        payload offers rfl rfl rfl rfl hpne (by omega)
     rw [hfeed]
     simp only [wsClose, hd, Bool.not_true, Bool.false_and, Bool.false_eq_true, if_false]
     refine ⟨c2, rfl, ?_, ?_, ?_, ?_, ?_⟩ <;> rw [hc2]
